@@ -361,30 +361,35 @@ Definition read_v2_record : M (Z * Z * Z * list N * list N * list (list N * list
   mark_read ;;;
   ret (wrap64 (h_first h3 + od), wrap64 (h_first h3 + h_lod h3), wrap64 (h_ts h3 + tsd), k, v, hs).
 
+(* readMessageV2, first half: when no record of the set was read yet and the set is
+   compressed, decompress it and push the result on the stack *)
+Definition read_v2_prepare (f : frame) : M unit :=
+  let h := f_hdr f in
+  if f_count f =? h_count h then
+    c <- codec_of h ;;
+    match c with
+    | None => ret tt
+    | Some code =>
+      let batch_remain := wrap32 (h_length h - 49) in
+      if f_remain f <? batch_remain then fail EShort
+      else if batch_remain <? 0 then fail ENegBatch
+      else
+        d <- lift (p_decompress code batch_remain) ;;
+        set_lrem (len d) ;;;     (* the records are accounted for by their uncompressed size *)
+        (fun m => match m_stack m with
+                  | [] => MPanic
+                  | p :: ps =>
+                    MOk tt (set_stack m (mkFrame d (len d) (-1) (f_count p) h
+                                         :: mkFrame (f_in p) (f_remain p) (f_base p) 0 (f_hdr p) :: ps))
+                  end)
+    end
+  else ret tt.
+
 (* readMessageV2: (offset, lastOffset, timestamp, key, value, headers) *)
 Definition read_v2 (fuel : nat) : M (Z * Z * Z * list N * list N * list (list N * list N)) :=
   read_header fuel ;;;
   f <- top ;;
-  let h := f_hdr f in
-  (if f_count f =? h_count h then
-     c <- codec_of h ;;
-     match c with
-     | None => ret tt
-     | Some code =>
-       let batch_remain := wrap32 (h_length h - 49) in
-       if f_remain f <? batch_remain then fail EShort
-       else if batch_remain <? 0 then fail ENegBatch
-       else
-         d <- lift (p_decompress code batch_remain) ;;
-         set_lrem (len d) ;;;     (* the records are accounted for by their uncompressed size *)
-         (fun m => match m_stack m with
-                   | [] => MPanic
-                   | p :: ps =>
-                     MOk tt (set_stack m (mkFrame d (len d) (-1) (f_count p) h
-                                          :: mkFrame (f_in p) (f_remain p) (f_base p) 0 (f_hdr p) :: ps))
-                   end)
-     end
-   else ret tt) ;;;
+  read_v2_prepare f ;;;
   read_v2_record.
 
 (* a decoded message as Batch.ReadMessage returns it (nil and empty key/value coincide) *)
